@@ -524,6 +524,7 @@ type FuncContract struct {
 	Havoc    bool // uncontracted external: havoc results, nothing else
 	Opts     map[string]string
 	Names    []string // explicit parameter names for iface / external contracts
+	Safety   []string // properties the function's safety (no-panic) obligations belong to
 	ResNames []string
 }
 
@@ -587,7 +588,7 @@ var itemKeywords = map[string]bool{"func": true, "iface": true, "impl": true, "m
 	"spec": true, "axiom": true, "lemma": true, "immutable": true, "extern": true}
 var clauseKeywords = map[string]bool{"facet": true, "requires": true, "ensures": true, "modifies": true, "panics-when": true,
 	"inline": true, "trusted": true, "loop": true, "param": true, "arith": true, "invariant": true, "implements": true,
-	"guards": true, "havocs": true, "pure": true, "names": true, "results": true, "opt": true}
+	"guards": true, "havocs": true, "pure": true, "names": true, "results": true, "opt": true, "safety": true}
 
 // logical lines: a line whose first word is a keyword starts a new logical line; other lines continue the previous.
 func logicalLines(raw []string) []string {
@@ -887,6 +888,13 @@ func (sp *Specs) parseFile(path, pkgName string, lines []string) error {
 				return fail(ln, fmt.Errorf("implements outside func"))
 			}
 			cur.Impl = r
+		case "safety":
+			if cur == nil {
+				return fail(ln, fmt.Errorf("safety outside func"))
+			}
+			for _, f := range strings.Split(r, ",") {
+				cur.Safety = append(cur.Safety, strings.TrimSpace(f))
+			}
 		case "inline":
 			cur.Inline = true
 		case "trusted":
